@@ -144,7 +144,11 @@ func Run(spec RunSpec) (res *RunResult) {
 		w.Cfg = spec.Replay.Engine
 		w.Sched = spec.Replay
 		for _, m := range w.Mods {
-			m.LoadConfig(w, spec.Replay.ModCfg[m.Name()])
+			// (a schedule recorded before a module joined the profile has no configuration
+			// for it: the module then runs with its zero configuration, i.e. does nothing)
+			if raw := spec.Replay.ModCfg[m.Name()]; len(raw) > 0 {
+				m.LoadConfig(w, raw)
+			}
 		}
 	} else {
 		w.Cfg = sampleEngine(rng, spec.Long)
